@@ -501,6 +501,24 @@ def _type_check_array_size(expression, source_file_name, errors):
     _type_check_integer(expression, source_file_name, errors, "Array size")
 
 
+def _type_check_enum_value(enum_value, source_file_name, errors):
+    # A value may also be given as (an expression of) another enum value, e.g.
+    # `TEN = TEN2`; anything else (booleans, fields) is not a number.
+    if ir_data_utils.reader(enum_value.value).type.which_type not in (
+        "integer",
+        "enumeration",
+    ):
+        errors.append(
+            [
+                error.error(
+                    source_file_name,
+                    enum_value.value.source_location,
+                    "Enum value must be an integer.",
+                )
+            ]
+        )
+
+
 def _type_check_field_location(location, source_file_name, errors):
     _type_check_integer(location.start, source_file_name, errors, "Start of field")
     _type_check_integer(location.size, source_file_name, errors, "Size of field")
@@ -662,6 +680,12 @@ def check_types(ir):
         ir,
         [ir_data.Field],
         _type_check_field_existence_condition,
+        parameters={"errors": errors},
+    )
+    traverse_ir.fast_traverse_ir_top_down(
+        ir,
+        [ir_data.EnumValue],
+        _type_check_enum_value,
         parameters={"errors": errors},
     )
     traverse_ir.fast_traverse_ir_top_down(
